@@ -1,10 +1,13 @@
 (* C15: the type checker accepts exactly the well-typed programs.
    Only statements here; proofs live in Proof/Check*.v.
-     check          Model/Check.v     faithful model of fun::syntax::program::Program::check
-     check_repaired Model/Check.v     the same with the one-line repair of the instance-order defect
-     has_type       Sem/FunTyping.v   the declarative typing rules (independent of the model)
-   Full-strength statements first; both are FALSE of the faithful model (and of the real checker:
-   the witnesses are in corpus/fun/c15-*.sc and are re-confirmed on every run). *)
+     check            Model/Check.v     faithful model of fun::syntax::program::Program::check (as it is
+                                        since fix d524b1f of /repo)
+     check_before_fix Model/Check.v     the same without the line that fix added (regression statements)
+     has_type         Sem/FunTyping.v   the declarative typing rules (independent of the model)
+   Full-strength statements first.  Soundness is FALSE of the faithful model and of the real checker
+   (witnesses corpus/fun/c15-ill-accepted-*.sc, re-confirmed on every run; known finding
+   C15-lazy-declaration-types).  Completeness was false as well until fix d524b1f (instance-creation
+   order); the former witnesses corpus/fun/c15-wt-instance-order*.sc are regression inputs now. *)
 From Coq Require Import List String Bool Permutation.
 From SCC Require Import Lang.FunSyn Model.Check Sem.FunTyping Sem.FunErase Proof.CheckWitness Proof.CheckAnn Proof.TypingReject Proof.CheckMono Proof.CheckProof.
 Import ListNotations.
@@ -16,60 +19,63 @@ Theorem C15_check_sound_refuted : ~ (forall p q, check p = COk q -> has_type p).
 Proof. exact check_sound_refuted_lemma. Qed.
 Print Assumptions C15_check_sound_refuted.
 
-(* Completeness, full statement: `forall p, has_type p -> exists q, check p = COk q`.  False: a
-   constructor or `new` checked against a type whose instance has not been created yet is
-   "undefined" (instances are created lazily, in the order in which types are met). *)
-Theorem C15_check_complete_refuted : ~ (forall p, has_type p -> exists q, check p = COk q).
-Proof. exact check_complete_refuted_lemma. Qed.
-Print Assumptions C15_check_complete_refuted.
-
-(* ... and acceptance is not even invariant under reordering the definitions of a program. *)
-Theorem C15_check_order_dependent_refuted :
-  exists p p', Permutation (fpdecls p) (fpdecls p') /\ (exists q, check p = COk q) /\ (exists e, check p' = CErr e).
-Proof.
-  exists p_instance_order_fixed, p_instance_order_late.
-  destruct check_order_dependent_lemma as [Ha [Hr Hp]].
-  split; [exact Hp|]. split; [exact Ha|]. eexists; exact Hr.
-Qed.
-Print Assumptions C15_check_order_dependent_refuted.
-
 (* ---------- partial versions: programs without type parameters and type arguments ----------
    [mono_prog p] (Proof/CheckMono.v): every data/codata declaration has an empty parameter list,
    every type written in the program is i64 or a declared name without arguments, every case and
    destructor call has an empty type-argument list.
-   GAP: for programs WITH type parameters neither direction is proved.  Soundness is false there
-   (witness above; the conjecture is that it holds once the declarations are required to be
-   well-formed, [decls_ok]); completeness of the repaired checker is conjectured.  What is missing is
-   the injectivity of printed instance names ([print_ty]) for identifier-like names and the
-   agreement of HashMap-based substitution with positional instantiation. *)
+   GAP: for programs WITH type parameters neither direction is proved (there both rest on the
+   correspondence run).  Soundness is false there (witness above; the conjecture is that it holds
+   once the declarations are required to be well-formed, [decls_ok]); completeness is conjectured.
+   What is missing is the injectivity of printed instance names ([print_ty]) for identifier-like
+   names and the agreement of HashMap-based substitution with positional instantiation. *)
 Theorem C15_check_sound_partial : forall p q, mono_prog p = true -> check p = COk q -> has_type p.
 Proof. exact check_sound_partial. Qed.
 Print Assumptions C15_check_sound_partial.
 
-(* completeness is false already on this fragment (the witness has no type parameters) ... *)
-Theorem C15_check_complete_in_fragment_refuted :
-  ~ (forall p, mono_prog p = true -> has_type p -> exists q, check p = COk q).
-Proof. exact check_complete_refuted_in_fragment. Qed.
-Print Assumptions C15_check_complete_in_fragment_refuted.
-(* ... and the instance-creation order is the only reason: with the one-line repair (Constructor::check
-   and New::check call expected.check(symbol_table) first; Check.check_repaired) every well-typed
-   program of the fragment is accepted, and the repaired checker is still sound - it decides the
-   typing rules on the fragment. *)
+(* Completeness, full statement `forall p, has_type p -> exists q, check p = COk q`: proved on the
+   fragment ... *)
 Theorem C15_check_complete_partial :
-  forall p, mono_prog p = true -> has_type p -> exists q, check_repaired p = COk q.
+  forall p, mono_prog p = true -> has_type p -> exists q, check p = COk q.
 Proof. exact check_complete_partial. Qed.
 Print Assumptions C15_check_complete_partial.
-(* The checker AS IT IS on a well-typed program of the fragment: it accepts, or it reports the single
-   error variant Undefined (T-002) - the instance-order defect is the only way such a program is
-   rejected. *)
-Theorem C15_check_undefined_only_partial : forall p, mono_prog p = true -> has_type p ->
-  (exists q, check p = COk q) \/ check p = CErr EUndefined.
-Proof. exact check_undefined_only_partial. Qed.
-Print Assumptions C15_check_undefined_only_partial.
-Theorem C15_check_repaired_exact_partial :
-  forall p, mono_prog p = true -> (has_type p <-> exists q, check_repaired p = COk q).
-Proof. exact check_repaired_exact_partial. Qed.
-Print Assumptions C15_check_repaired_exact_partial.
+(* ... so on the fragment the checker decides the typing rules, and its verdict depends on the
+   order of the declarations only as far as the rules' verdict does. *)
+Theorem C15_check_exact_partial :
+  forall p, mono_prog p = true -> (has_type p <-> exists q, check p = COk q).
+Proof. exact check_exact_partial. Qed.
+Print Assumptions C15_check_exact_partial.
+Theorem C15_check_order_independent_partial : forall p p', mono_prog p = true -> mono_prog p' = true ->
+  (has_type p <-> has_type p') -> ((exists q, check p = COk q) <-> (exists q, check p' = COk q)).
+Proof. exact check_order_independent_partial. Qed.
+Print Assumptions C15_check_order_independent_partial.
+
+(* The former counterexamples to completeness (a constructor / `new` checked against a type whose
+   instance no earlier definition had created) are accepted, in every order of the definitions ... *)
+Theorem C15_instance_order_witnesses_accepted :
+  (exists q, check p_instance_order = COk q) /\ (exists q, check p_instance_order_fixed = COk q)
+  /\ (exists q, check p_instance_order_late = COk q).
+Proof. exact (conj instance_order_accepted (conj instance_order_fixed_accepted instance_order_late_accepted)). Qed.
+Print Assumptions C15_instance_order_witnesses_accepted.
+(* ... and they are discriminating regression inputs: without the line added by fix d524b1f the
+   model rejects the first (a well-typed program of the fragment) and accepts or rejects the other
+   two depending on the order of the same declarations; on the fragment that was the only possible
+   wrong rejection (Undefined). *)
+Theorem C15_regression_before_fix_incomplete :
+  ~ (forall p, mono_prog p = true -> has_type p -> exists q, check_before_fix p = COk q).
+Proof. exact check_before_fix_incomplete_in_fragment. Qed.
+Print Assumptions C15_regression_before_fix_incomplete.
+Theorem C15_regression_before_fix_order_dependent :
+  exists p p', Permutation (fpdecls p) (fpdecls p') /\ (exists q, check_before_fix p = COk q) /\ (exists e, check_before_fix p' = CErr e).
+Proof.
+  exists p_instance_order_fixed, p_instance_order_late.
+  destruct check_before_fix_order_dependent as [Ha [Hr Hp]].
+  split; [exact Hp|]. split; [exact Ha|]. eexists; exact Hr.
+Qed.
+Print Assumptions C15_regression_before_fix_order_dependent.
+Theorem C15_regression_before_fix_undefined_only_partial : forall p, mono_prog p = true -> has_type p ->
+  (exists q, check_before_fix p = COk q) \/ check_before_fix p = CErr EUndefined.
+Proof. exact check_before_fix_undefined_only_partial. Qed.
+Print Assumptions C15_regression_before_fix_undefined_only_partial.
 
 (* ---------- the checked program is the parsed program plus annotations ---------- *)
 (* For every accepted program: the checked definitions are the parsed definitions, in the same
@@ -78,11 +84,11 @@ Print Assumptions C15_check_repaired_exact_partial.
    to ty/chi/clause-context fields and clause order) ... *)
 Theorem C15_check_annotates :
   forall p q, check p = COk q -> Forall2 def_ann (fcpdefs q) (defs_of (fpdecls p)).
-Proof. exact (check_gen_annotates false). Qed.
+Proof. exact check_annotates. Qed.
 Print Assumptions C15_check_annotates.
 (* ... and no annotation is missing. *)
 Theorem C15_check_annotated : forall p q, check p = COk q -> annotated_fcprog q = true.
-Proof. exact (check_gen_annotated false). Qed.
+Proof. exact check_annotated. Qed.
 Print Assumptions C15_check_annotated.
 
 (* ---------- single ill-typed edits are rejected by the typing rules ----------
